@@ -53,7 +53,7 @@ def plan(tier, seed):
 def mandatory(tier):
     out = ["derived_grid", "derived_grid/fractional_internal_size"]
     for a, b in itertools.product(AXES, AXES):
-        for g in ("same", "other"):
+        for g in ("same", "other", "same_domain"):
             out.append(f"points/{a}->{b}/{g}")
             out.append(f"vectors/{a}->{b}/{g}")
     out += ["lattice/True", "lattice/False", "identity_resample", "anchors", "coords_options", "cube"]
@@ -187,9 +187,14 @@ def case(ctx, i):
             return 1e-12
         return 0.0
 
+    # a third grid: another sampling of the *same* world domain (resolution level / resized grid); maps between the two
+    # still go through the sizes of both grids (index axes, and cube axes of the other convention)
+    with ctx.guard("same-domain grid", params=p1):
+        g3 = g1.downsample(1) if (i % 2 and min(int(k) for k in g1.size()) >= 4) else g1.resize(tuple(int(k) + 1 + (j % 2) for j, k in enumerate(g1.size())))
+    r3 = gen.ref_of_grid(g3)
     pair_idx = 0
     for a, b in itertools.product(AXES, AXES):
-        for which, g_to, r_to in (("same", None, None), ("other", g2, r2)):
+        for which, g_to, r_to in (("same", None, None), ("other", g2, r2), ("same_domain", g3, r3)):
             pair_idx += 1
             lead = gen.LEADING_SHAPES[(i + pair_idx) % len(gen.LEADING_SHAPES)]
             dtype = torch.float64 if (i + pair_idx) % 3 == 0 else torch.float32
@@ -238,15 +243,15 @@ def case(ctx, i):
                     lin_tol = K * eps * absprod + 1e-30
                     ctx.close("vectors_are_linear_part", Ln, Mn[:, :D], lin_tol, **info)
             # --- module-level API
-            if which == "other":
+            if which != "same":
                 with ctx.guard("grid_transform_points", **info):
-                    y = G.grid_transform_points(xt, g1, ax[a], g2, ax[b], decimals=None)
+                    y = G.grid_transform_points(xt, g1, ax[a], g_to, ax[b], decimals=None)
                     ctx.close("module_points_vs_oracle", y, ref, tol0, **info)
-                    w = G.grid_transform_vectors(vt, g1, ax[a], g2, ax[b])
+                    w = G.grid_transform_vectors(vt, g1, ax[a], g_to, ax[b])
                     ctx.close("module_vectors_vs_oracle", w, vref, vtol, **info)
-                    M2 = hom_np(G.grid_points_transform(g1, ax[a], g2, ax[b]), D)
+                    M2 = hom_np(G.grid_points_transform(g1, ax[a], g_to, ax[b]), D)
                     ctx.close("module_matrix_vs_oracle", x @ M2[:, :D].T + M2[:, D], ref, tol0, **info)
-                    L2 = G.grid_vectors_transform(g1, ax[a], g2, ax[b]).double().numpy()
+                    L2 = G.grid_vectors_transform(g1, ax[a], g_to, ax[b]).double().numpy()
                     ctx.close("module_vmatrix_vs_oracle", v @ L2.T, vref, vtol, **info)
             # --- law: round trip A -> B -> A on deepali's own outputs (default rounding and none)
             for decimals in (-1, None):
@@ -257,10 +262,10 @@ def case(ctx, i):
                         back_tol = r1.tol(np.abs(ref), b, a, None, eps=eps, k=K)
                         Lb = np.abs(r1.matrix(b, a)[:D, :D])
                     else:
-                        y = g1.transform_points(xt, ax[a], ax[b], to_grid=g2, decimals=decimals)
-                        z = g2.transform_points(y, ax[b], ax[a], to_grid=g1, decimals=decimals)
-                        back_tol = r2.tol(np.abs(ref), b, a, r1, eps=eps, k=K)
-                        Lb = np.abs(r2.matrix(b, a, r1)[:D, :D])
+                        y = g1.transform_points(xt, ax[a], ax[b], to_grid=g_to, decimals=decimals)
+                        z = g_to.transform_points(y, ax[b], ax[a], to_grid=g1, decimals=decimals)
+                        back_tol = r_to.tol(np.abs(ref), b, a, r1, eps=eps, k=K)
+                        Lb = np.abs(r_to.matrix(b, a, r1)[:D, :D])
                     # error of the forward map is amplified by the linear part of the backward map
                     fw = (tol0 + quantum(b, decimals, dtype)) @ Lb.T
                     ctx.close("roundtrip_identity", z, x, fw + back_tol + quantum(a, decimals, dtype), decimals=decimals, **info)
